@@ -240,7 +240,7 @@ func c18Round(n, adds, snaps int) bool {
 func VerifC18_Concurrent() {
 	verifOwnPanics()
 	mode := verifParam("schedule", 0, 2)
-	verifSchedule(mode, 1)
+	verifSchedule(mode, 1+verifTier()) // thorough: up to two preemptions
 	n := verifParam("capacity", 1, 3)
 	verifWitness("reached")
 	ok := c18Round(n, n+2, 2)
